@@ -355,8 +355,19 @@ func (r *c18Run) kComps(vals []uint64) []ecs.Component {
 }
 
 // target draws an optional relation target for a map that has a relation.
-func (r *c18Run) target(c *cursor) []ecs.Entity {
+func (r *c18Run) target(c *cursor) []ecs.Entity { return r.targetX(c, false) }
+
+// targetX: with illegalOK, a map WITHOUT a relation is now and then given a target all the same (must be refused like
+// a Builder without WithRelation that is given one).
+func (r *c18Run) targetX(c *cursor, illegalOK bool) []ecs.Entity {
 	k := c.n(100)
+	if r.relT < 0 && illegalOK && k >= 94 {
+		r.stats["target-for-map-without-relation"]++
+		if e, ok := r.pick(c); ok && k%2 == 0 {
+			return []ecs.Entity{e}
+		}
+		return []ecs.Entity{{}}
+	}
 	if r.relT < 0 || k < 40 {
 		c.n(1)
 		return nil
@@ -625,15 +636,22 @@ func (r *c18Run) doStep(st *Step) *Violation {
 		krel = r.K.ids[r.relT]
 	}
 	r.stats["op:"+st.Op]++
+	// the ID-based equivalent of a map with / without a relation: a Builder with / without WithRelation
+	kb := func(b *ecs.Builder) *ecs.Builder {
+		if r.relT >= 0 {
+			return b.WithRelation(krel)
+		}
+		return b
+	}
 	switch st.Op {
 	case "new":
-		t := r.target(c)
+		t := r.targetX(c, true)
 		var ge, ke ecs.Entity
 		v, _ := r.both("MapN.New", func() { ge = r.drv.New(t) }, func() {
 			if len(t) == 0 {
 				ke = K.NewEntity(kids...)
 			} else {
-				ke = ecs.NewBuilder(K, kids...).WithRelation(krel).New(t[0])
+				ke = kb(ecs.NewBuilder(K, kids...)).New(t[0])
 			}
 		})
 		if v != nil {
@@ -643,14 +661,14 @@ func (r *c18Run) doStep(st *Step) *Violation {
 			return r.viol("MapN.New returned %v, World.NewEntity %v", ge, ke)
 		}
 	case "newwith":
-		t := r.target(c)
+		t := r.targetX(c, true)
 		vals := r.vals(len(r.mapT))
 		var ge, ke ecs.Entity
 		v, _ := r.both("MapN.NewWith", func() { ge = r.drv.NewWith(vals, t) }, func() {
 			if len(t) == 0 {
 				ke = K.NewEntityWith(r.kComps(vals)...)
 			} else {
-				ke = ecs.NewBuilderWith(K, r.kComps(vals)...).WithRelation(krel).New(t[0])
+				ke = kb(ecs.NewBuilderWith(K, r.kComps(vals)...)).New(t[0])
 			}
 		})
 		if v != nil {
@@ -660,7 +678,7 @@ func (r *c18Run) doStep(st *Step) *Violation {
 			return r.viol("MapN.NewWith returned %v, core %v", ge, ke)
 		}
 	case "newbatch", "newbatchq":
-		t := r.target(c)
+		t := r.targetX(c, true)
 		n := 1 + c.n(5)
 		if len(r.alive()) > 60 {
 			return nil
@@ -678,7 +696,7 @@ func (r *c18Run) doStep(st *Step) *Violation {
 		}, func() {
 			b := ecs.NewBuilder(K, kids...)
 			if len(t) > 0 {
-				b = b.WithRelation(krel)
+				b = kb(b)
 			}
 			if isQ {
 				q := b.NewBatchQ(n, t...)
@@ -714,10 +732,12 @@ func (r *c18Run) doStep(st *Step) *Violation {
 			v, _ := r.both("MapN.Assign", func() { r.drv.Assign(e, vals) }, func() { K.Assign(e, r.kComps(vals)...) })
 			return v
 		}
-		t := r.target(c)
+		t := r.targetX(c, true)
 		v, _ := r.both("MapN.Add", func() { r.drv.Add(e, t) }, func() {
 			if len(t) == 0 {
 				K.Add(e, kids...)
+			} else if r.relT < 0 {
+				ecs.NewBuilder(K, kids...).Add(e, t[0]) // no relation configured: refused before anything happens
 			} else {
 				K.Relations().Exchange(e, kids, nil, krel, t[0])
 			}
